@@ -4,6 +4,9 @@ mod data;
 mod families;
 mod host;
 mod mon_local;
+mod mon_state;
+mod mon_term;
+mod refeval;
 mod netmc;
 mod props;
 mod script;
@@ -44,7 +47,7 @@ fn main() {
             std::process::exit(replay_file(&args[2]));
         }
         "families" => {
-            for (n, v) in [("STREAM quick", families::stream_family(0)), ("STREAM thorough", families::stream_family(1)), ("MAP quick", families::map_family(0)), ("MAP thorough", families::map_family(1))] {
+            for (n, v) in [("STREAM quick", families::stream_family(0)), ("STREAM thorough", families::stream_family(1)), ("MAP quick", families::map_family(0)), ("MAP thorough", families::map_family(1)), ("ERR quick", families::err_family(0)), ("ERR thorough", families::err_family(1)), ("SEQ_3 quick", families::seq_family(3, 0)), ("SEQ_4 thorough", families::seq_family(4, 1))] {
                 println!("{n}: {} scripts", v.len());
             }
         }
